@@ -31,6 +31,7 @@ def bounds(tier):
             "thresh": [0.02, 0.05, 0.5], "crop": [0, 0.8, 0.95, 1.1], "data": ["gaussian seeds 0..3" if tier == "quick" else "gaussian seeds 0..7", "birdcage x ones", "birdcage x bump", "birdcage with one zero coil (first / last)"],
             "max_iter": [30, 100], "dtype": ["complex64", "complex128"],
             "mixed pad/crop": "8 non-square shapes whose calibration width lies between the two axis lengths (4 with calib**2 == voxels)",
+            "singleton axes": "6 shapes with one image axis of length one",
             "locality": "13 (shape, calib) pairs with k-space outside the centred calibration block replaced: maps must not change"}
 
 
@@ -99,6 +100,12 @@ def gen_cases(tier, seed):
                 for crop in (0, 0.8):
                     for dt in ("c64", "c128"):
                         cases.append(dict(kind="espirit", shape=sh, nc=nc, calib=8, kernel=3, thresh=0.02, crop=crop, data=data, dtype=dt, max_iter=30))
+    # a length-one image axis (single-slice volume, a single line)
+    for sh, cw, kw in (([1, 12], 6, 3), ([12, 1], 6, 3), ([1, 8, 8], 6, 3), ([8, 1, 8], 6, 3), ([8, 8, 1], 4, 2), ([1, 9], 4, 2)):
+        for nc in (2, 4):
+            for data in ("g0", "ones"):
+                for crop in (0, 0.3, 0.8):
+                    cases.append(dict(kind="espirit", shape=sh, nc=nc, calib=cw, kernel=kw, thresh=0.02, crop=crop, data=data, dtype="c128", max_iter=30))
     # threshold ties: crop set EXACTLY to the eigenvalue of one voxel (taken from a first run with crop=0);
     # "zero where the eigenvalue does not exceed the crop threshold" => that voxel must be zero
     for sh in ([8, 8], [9, 10]):
